@@ -1,0 +1,72 @@
+//go:build verif
+// +build verif
+
+package service
+
+import (
+	"io"
+	"sync"
+	"sync/atomic"
+)
+
+// VerifYieldHandler is called at every marked shared-memory step of the ring
+// buffer (set it before any buffer is used; nil = no-op).
+var VerifYieldHandler func(id int)
+
+func verifYield(id int) {
+	if h := VerifYieldHandler; h != nil {
+		h(id)
+	}
+}
+
+// VerifBuffer gives the verification harness access to the unexported ring.
+type VerifBuffer struct{ b *buffer }
+
+func VerifNewBuffer(size int64) (*VerifBuffer, error) {
+	b, err := newBuffer(size)
+	if err != nil {
+		return nil, err
+	}
+	return &VerifBuffer{b}, nil
+}
+
+func (v *VerifBuffer) Read(p []byte) (int, error)            { return v.b.Read(p) }
+func (v *VerifBuffer) Write(p []byte) (int, error)           { return v.b.Write(p) }
+func (v *VerifBuffer) ReadPeek(n int) ([]byte, error)        { return v.b.ReadPeek(n) }
+func (v *VerifBuffer) ReadWait(n int) ([]byte, error)        { return v.b.ReadWait(n) }
+func (v *VerifBuffer) ReadCommit(n int) (int, error)         { return v.b.ReadCommit(n) }
+func (v *VerifBuffer) WriteWait(n int) ([]byte, bool, error) { return v.b.WriteWait(n) }
+func (v *VerifBuffer) WriteCommit(n int) (int, error)        { return v.b.WriteCommit(n) }
+func (v *VerifBuffer) ReadFrom(r io.Reader) (int64, error)   { return v.b.ReadFrom(r) }
+func (v *VerifBuffer) WriteTo(w io.Writer) (int64, error)    { return v.b.WriteTo(w) }
+func (v *VerifBuffer) Close() error                          { return v.b.Close() }
+func (v *VerifBuffer) Len() int                              { return v.b.Len() }
+func (v *VerifBuffer) VerifSize() int64                      { return v.b.size }
+
+// VerifLocksFree probes both condition mutexes with TryLock (true = free).
+func (v *VerifBuffer) VerifLocksFree() (pfree, cfree bool) {
+	if m := v.b.pcond.L.(*sync.Mutex); m.TryLock() {
+		pfree = true
+		m.Unlock()
+	}
+	if m := v.b.ccond.L.(*sync.Mutex); m.TryLock() {
+		cfree = true
+		m.Unlock()
+	}
+	return
+}
+
+// VerifCursors returns producer cursor, consumer cursor, the producer's gate and the done flag.
+func (v *VerifBuffer) VerifCursors() (pseq, cseq, gate int64, done bool) {
+	return v.b.pseq.get(), v.b.cseq.get(), v.b.pseq.gate, atomic.LoadInt64(&v.b.done) == 1
+}
+
+// VerifSetCursors pre-advances a fresh, empty ring (wrap positions).
+func (v *VerifBuffer) VerifSetCursors(pos, gate int64) {
+	v.b.pseq.set(pos)
+	v.b.cseq.set(pos)
+	v.b.pseq.gate = gate
+}
+
+// IsErrInsufficient reports whether err is the ring's short-data error.
+func VerifIsInsufficient(err error) bool { return err == ErrBufferInsufficientData }
